@@ -14,6 +14,17 @@ What is NOT translated but mapped (documented idealisations, repeated in every o
 * `utils.is_singleton`, `utils.ensure_listlike`, `utils.ensure_flatlist` (`isinstance(·, Sized)`,
   `try … except`) are the primitives `is_singleton`, `ensure_listlike`, `ensure_listlike_dups`,
   `ensure_flatlist` of PyObjectLib (their source text is hashed: a change invalidates the obligation).
+* (t3b) `utils.check_section` and the generator `utils.sections` are the primitives `pyCheckSection` /
+  `pySections` (pinned per method: a change fails `section` / `corners` only; both are translated statement by
+  statement by `sections_translate.py` for property C15); `np.linalg.inv` is the hand model's certified exact
+  inverse `Mat.invChecked`; `np.sqrt` / `np.cos` / `np.sin` are abstract function parameters `sqrt_ cos_ sin_`
+  of the definitions that use them (`mirror`, `rotate`, `utils.rotation_matrix`, which IS translated);
+  the explicit `raise_order_1D` tail of `raise_order` (unreachable for sorted knot vectors, model:
+  `C05_explicit_branch_dead`) is pinned by digest and mapped to the model's `Exception`;
+  `copy.deepcopy(obj)` / `obj.clone()` are the identity on values; `1.0 / x` for an operand that may be an
+  array is the model's `AffOp.recip`; numpy shape-mismatch errors are not modelled.
+* (t3b) `self.split(..)` inside `split` is a fuel-indexed recursion (`split_fuel`, two levels suffice: the
+  recursive call happens on an object that has just been made non-periodic).
 
 `SIGS` fixes the interface assumptions (parameter / result types, defaults — checked against the
 source —, the specialisation of `*args` / `**kwargs` / `direction=None` that is translated).
@@ -27,7 +38,7 @@ from . import basis_translate as B
 from .basis_translate import Untranslatable, _NameErrorAt, NODEFAULT, lname as _blname
 
 RESERVED = {'len', 'slice', 'pure', 'tol', 'K', 'getItem', 'setItem', 'reversed', 'unflat', 'zip2', 'zip3', 'zip4',
-            'forEach', 'forRange', 'listComp', 'pardim', 'evaluate_fn', 'transpose_fix', 'check_direction'}
+            'forEach', 'forRange', 'listComp', 'pardim', 'evaluate_fn', 'transpose_fix', 'check_direction', 'order'}
 
 
 def lname(n):
@@ -45,13 +56,18 @@ LEAN_TYPE = {
     'blist': 'List Bool', 'param': 'Param K', 'paramlist': 'List (Param K)', 'fll': 'List (List K)',
     'matlist': 'List (Mat K)', 'dir': 'DirTok', 'slicetoks': 'List SliceTok', 'optbool': 'Option Bool',
     'optilist': 'Option (List Int)', 'optblist': 'Option (List Bool)', 'baselist': 'List (Basis K)',
-    'str': 'String',
+    'str': 'String', 'idxtoks': 'List IdxTok', 'idxtok': 'IdxTok', 'ext': 'Option Int', 'ctor': 'Int',
+    'ctorlist': 'Int', 'objlist': 'List (PyObj K)', 'splitres': 'PyRes K', 'nparr': 'List K',
+    'sel': 'Option Int', 'sec': 'List (Option Int)', 'seclist': 'List (List (Option Int))', 'secres': 'PySec K',
+    'kwsel': 'List (ℕ × Option Int)',
 }
 FLOATS = ('pyf', 'npf')
 LISTOF = {'npf': 'flist', 'pyf': 'flist', 'int': 'ilist', 'boolv': 'blist', 'flist': 'fll', 'mat': 'matlist',
-          'slicetok': 'slicetoks', 'basis': 'baselist', 'param': 'paramlist'}
+          'slicetok': 'slicetoks', 'basis': 'baselist', 'param': 'paramlist', 'idxtok': 'idxtoks', 'self': 'objlist',
+          'sel': 'sec', 'sec': 'seclist'}
 ELEM = {'flist': 'npf', 'ilist': 'int', 'blist': 'boolv', 'fll': 'flist', 'matlist': 'mat', 'slicetoks': 'slicetok',
-        'baselist': 'basis', 'paramlist': 'param', 'bases': 'basis'}
+        'baselist': 'basis', 'paramlist': 'param', 'bases': 'basis', 'idxtoks': 'idxtok', 'objlist': 'self',
+        'nparr': 'npf', 'sec': 'sel', 'seclist': 'sec'}
 LISTS = tuple(ELEM)
 
 # ---------------------------------------------------------------------------------------------------
@@ -91,16 +107,60 @@ SIGS = {
     'translate': {'kind': 'method', 'params': [('x', 'flist', NODEFAULT)], 'ret': 'self', 'mut': 'self'},
     'scale': {'kind': 'method', 'params': [], 'vararg': ('args', 'flist'), 'ret': 'self', 'mut': 'self'},
     'project': {'kind': 'method', 'params': [('plane', 'str', NODEFAULT)], 'ret': 'self', 'mut': 'self'},
+    'order': {'kind': 'method', 'params': [('direction', 'none', None)], 'ret': 'ilist', 'mut': None},
+    'order_dir': {'kind': 'method', 'py': 'order', 'params': [('direction', 'dir', None)], 'ret': 'int', 'mut': None},
+    'make_periodic': {'kind': 'method', 'params': [('continuity', 'none', None), ('direction', 'dir', 0)],
+                      'ret': 'self', 'mut': None},
+    'make_periodic_c': {'kind': 'method', 'py': 'make_periodic',
+                        'params': [('continuity', 'int', None), ('direction', 'dir', 0)], 'ret': 'self', 'mut': None},
+    'split': {'kind': 'method', 'params': [('knots', 'param', NODEFAULT), ('direction', 'dir', 0)],
+              'ret': 'splitres', 'mut': None, 'fuel': '2', 'locals': {'results': 'objlist'}},
+    'lower_periodic': {'kind': 'method', 'params': [('periodic', 'int', NODEFAULT), ('direction', 'dir', 0)],
+                       'ret': 'self', 'mut': 'self'},
+    'raise_order_implicit': {'kind': 'method', 'params': [], 'vararg': ('raises', 'ilist'), 'ret': 'self', 'mut': 'self'},
+    'raise_order': {'kind': 'method', 'params': [], 'vararg': ('raises', 'ilist'),
+                    'kwonly': [('direction', 'none', None)], 'ret': 'self', 'mut': 'self',
+                    'pinned_tail': ('new_bases = [b.raise_order(r) for b, r in zip(self.bases, raises)]', 'da31887f827a298b')},
+    'raise_order_dir': {'kind': 'method', 'py': 'raise_order', 'params': [], 'vararg': ('raises', 'ilist'),
+                        'kwonly': [('direction', 'dir', None)], 'ret': 'self', 'mut': 'self',
+                        'pinned_tail': ('new_bases = [b.raise_order(r) for b, r in zip(self.bases, raises)]', 'da31887f827a298b')},
+    'set_order': {'kind': 'method', 'params': [], 'vararg': ('order', 'ilist'), 'ret': 'self', 'mut': 'self'},
+    'lower_order': {'kind': 'method', 'params': [], 'vararg': ('lowers', 'ilist'), 'ret': 'self', 'mut': None},
+    'scale_p': {'kind': 'method', 'py': 'scale', 'params': [], 'vararg': ('args', 'paramlist'), 'ret': 'self', 'mut': 'self'},
+    'rotation_matrix': {'kind': 'util', 'params': [('theta', 'npf', NODEFAULT), ('axis', 'nparr', NODEFAULT)],
+                        'ret': 'mat', 'mut': None, 'fnparams': ('cos_', 'sin_', 'sqrt_')},
+    'rotate': {'kind': 'method', 'params': [('theta', 'npf', NODEFAULT), ('normal', 'flist', (0, 0, 1))],
+               'ret': 'self', 'mut': 'self', 'fnparams': ('cos_', 'sin_', 'sqrt_')},
+    'mirror': {'kind': 'method', 'params': [('normal', 'flist', NODEFAULT)], 'ret': 'self', 'mut': 'self',
+               'fnparams': ('sqrt_',)},
+    '__iadd__': {'kind': 'method', 'lean': 'op_iadd', 'params': [('x', 'flist', NODEFAULT)], 'ret': 'self', 'mut': 'self'},
+    '__isub__': {'kind': 'method', 'lean': 'op_isub', 'params': [('x', 'flist', NODEFAULT)], 'ret': 'self', 'mut': 'self'},
+    '__imul__': {'kind': 'method', 'lean': 'op_imul', 'params': [('x', 'param', NODEFAULT)], 'ret': 'self', 'mut': 'self'},
+    '__itruediv__': {'kind': 'method', 'lean': 'op_itruediv', 'params': [('x', 'param', NODEFAULT)], 'ret': 'self', 'mut': 'self'},
+    '__add__': {'kind': 'method', 'lean': 'op_add', 'params': [('x', 'flist', NODEFAULT)], 'ret': 'self', 'mut': None},
+    '__radd__': {'kind': 'method', 'lean': 'op_radd', 'params': [('x', 'flist', NODEFAULT)], 'ret': 'self', 'mut': None},
+    '__sub__': {'kind': 'method', 'lean': 'op_sub', 'params': [('x', 'flist', NODEFAULT)], 'ret': 'self', 'mut': None},
+    '__mul__': {'kind': 'method', 'lean': 'op_mul', 'params': [('x', 'param', NODEFAULT)], 'ret': 'self', 'mut': None},
+    '__rmul__': {'kind': 'method', 'lean': 'op_rmul', 'params': [('x', 'param', NODEFAULT)], 'ret': 'self', 'mut': None},
+    '__div__': {'kind': 'method', 'lean': 'op_div', 'params': [('x', 'param', NODEFAULT)], 'ret': 'self', 'mut': None},
+    'section': {'kind': 'method', 'params': [], 'vararg': ('args', 'sec'),
+                'kwargs': {'unwrap_points': 'optbool', 'uvw': 'kwsel'}, 'ret': 'secres', 'mut': None,
+                'pins': ('check_section',)},
+    'corners': {'kind': 'method', 'params': [('order', 'str', 'C')], 'ret': 'mat', 'mut': None, 'pins': ('sections',)},
     'derivative': {'kind': 'method', 'params': [], 'vararg': ('params', 'paramlist'),
                    'kwargs': {'d': 'optilist', 'above': 'optblist', 'tensor': 'optbool'}, 'ret': 'tensor', 'mut': None},
 }
 # translation order (callees first)
 ORDER = ['check_direction', 'transpose_fix', 'evaluate_fn', 'pardim', '__len__', 'start', 'start_dir', 'end', 'end_dir',
          '_validate_domain', 'evaluate', 'bounding_box', 'insert_knot', 'reverse', 'swap', 'reparam', 'reparam_dir',
-         'set_dimension', 'force_rational', 'translate', 'scale', 'project', 'derivative']
+         'set_dimension', 'force_rational', 'translate', 'scale', 'project', 'derivative', 'lower_periodic',
+         'order', 'order_dir', 'make_periodic', 'make_periodic_c', 'split', 'raise_order_implicit', 'raise_order',
+         'raise_order_dir', 'set_order', 'lower_order', 'scale_p', 'rotation_matrix', 'rotate', 'mirror',
+         '__iadd__', '__isub__', '__imul__', '__itruediv__', '__add__', '__radd__', '__sub__', '__mul__', '__rmul__',
+         '__div__', 'section', 'corners']
 
 # names bound at module level of splineobject.py that the bodies may use (only in the forms handled below)
-GLOBALS = {'np', 'copy', 'attrgetter', 'methodcaller', 'chain', 'product', 'bisect_left', 'BSplineBasis', 'reshape',
+GLOBALS = {'bisect_left', 'np', 'copy', 'attrgetter', 'methodcaller', 'chain', 'product', 'bisect_left', 'BSplineBasis', 'reshape',
            'rotation_matrix', 'is_singleton', 'ensure_listlike', 'check_direction', 'ensure_flatlist', 'check_section',
            'sections', 'raise_order_1D', 'transpose_fix', 'evaluate', 'SplineObject',
            'len', 'abs', 'float', 'int', 'max', 'min', 'range', 'list', 'tuple', 'slice', 'type', 'all', 'any', 'sum',
@@ -115,8 +175,11 @@ BASIS_PURE = {
 }
 BASIS_ATTR = {'periodic': ('%s.periodic', 'int'), 'order': ('((%s.order : ℕ) : Int)', 'int'),
               'knots': ('%s.knots.toList', 'flist')}
+# self-mutating methods that change the basis objects in place and never put NEW objects into self.bases
+KEEPS_BASES_OBJECTS = ('insert_knot', 'reverse', 'reparam', 'translate', 'scale', 'set_dimension', 'force_rational', 'project')
 IDEALISED = ('BSplineBasis methods = hand model Basis.* (t1/t2); utils.is_singleton / ensure_listlike / '
-             'ensure_flatlist = PyObjectLib primitives')
+             'ensure_flatlist (/ check_section / sections where used) = PyObjectLib primitives; np.linalg.inv = '
+             'Mat.invChecked; sqrt/cos/sin abstract; numpy shape-mismatch errors not modelled')
 
 
 def py_name(key):
@@ -125,6 +188,10 @@ def py_name(key):
 
 def lean_name(key):
     return lname(SIGS[key].get('lean', key)) if SIGS[key].get('lean') else _blname(key)
+
+
+INPLACE_OPS = {ast.Add: '__iadd__', ast.Sub: '__isub__', ast.Mult: '__imul__', ast.Div: '__itruediv__'}
+INFIX_OPS = {ast.Add: '__add__', ast.Sub: '__sub__', ast.Mult: '__mul__', ast.Div: '__div__'}
 
 
 def ret_lean_type(sig):
@@ -157,6 +224,19 @@ def _is_self_attr(node, attr=None):
 class OFn(B.Fn):
     """One function / method.  Control flow comes from basis_translate.Fn."""
 
+    # state added after the first release: subclasses whose __init__ does not call this one (the override
+    # translator's VFn) get fresh per-instance values on first use
+    idx_mode = False
+    _LAZY = {'idx_vars': set, 'tainted': set, 'list_alias': dict}
+
+    def __getattr__(self, name):
+        mk = OFn._LAZY.get(name)
+        if mk is None:
+            raise AttributeError(name)
+        v = mk()
+        self.__dict__[name] = v
+        return v
+
     def __init__(self, key, node, floor_users):
         self.key = key
         self.node = node
@@ -170,11 +250,32 @@ class OFn(B.Fn):
         self.alias = {}          # loop target -> (kind, container text / name, index text)
         self.prop_nodes = set()  # ids of nodes whose value is needed as a Prop
         self.kw = dict(self.sig.get('kwargs') or {})
+        self.idx_mode = False    # `slice(None, None, None)` is an IdxTok (the list is indexed into later)
+        self.idx_vars = set()
+        self.tainted = set()     # object variables whose .bases list was mutated through an alias
+        self.list_alias = {}     # local list variable -> object variable whose .bases it aliases
         self.is_method = self.sig['kind'] in ('method', 'prop')
 
     # ------------------------------------------------------------------------------------------ helpers
     def var_text(self, v):
         return 'self_' if v == 'self' else lname(v)
+
+    def obj_text(self, node):
+        """Lean variable of a SplineObject-valued name (`self` or a local of type 'self'), else None."""
+        if isinstance(node, ast.Name) and self.env.get(node.id) == 'self':
+            if node.id in self.tainted:
+                pass
+            return self.var_text(node.id)
+        return None
+
+    def is_obj_attr(self, node, attr=None):
+        return (isinstance(node, ast.Attribute) and self.obj_text(node.value) is not None
+                and (attr is None or node.attr == attr))
+
+    def check_bases_read(self, node):
+        """`X.bases` must not be read after it was mutated through a list alias (`l = X.bases; l[i] = ..`)."""
+        if isinstance(node, ast.Name) and node.id in self.tainted:
+            raise Untranslatable('%s.bases is read after it was changed through a list alias' % node.id)
 
     def need_prop(self, node):
         self.prop_nodes.add(id(node))
@@ -184,6 +285,10 @@ class OFn(B.Fn):
             return text
         if ty == 'boolv':
             return '(%s = true)' % text
+        if ty == 'ctorlist':
+            return '((1 : Int) ≤ %s ∧ %s ≤ (3 : Int))' % (text, text)       # the list of matching subclasses is non-empty
+        if ty in LISTS and ty != 'bases':
+            return '(%s ≠ [])' % text
         raise Untranslatable('a %r where a condition is expected' % ty)
 
     def as_boolv(self, text, ty):
@@ -218,6 +323,24 @@ class OFn(B.Fn):
             return '(decide %s)' % text
         if want == 'dir' and ty == 'int':
             return '(DirTok.int %s)' % text
+        if want == 'idxtok' and ty == 'int':
+            return '(IdxTok.at %s)' % text
+        if want == 'ext' and ty == 'int':
+            return '(some %s)' % text
+        if want == 'splitres' and ty == 'objlist':
+            return '(PyRes.objs %s)' % text
+        if want == 'secres' and ty == 'self':
+            return '(PySec.obj %s)' % text
+        if want == 'secres' and ty == 'tensor':
+            return '(PySec.point %s)' % text
+        if want == 'splitres' and ty == 'self':
+            return '(PyRes.obj %s)' % text
+        if want == 'param' and ty in FLOATS:
+            return '(Param.scalar %s)' % text
+        if want == 'param' and ty == 'flist':
+            return '(Param.list %s)' % text
+        if want == 'flist' and ty == 'nparr':
+            return text
         if want == 'flist' and ty == 'ilist':
             return '(%s.map (fun (i : Int) => (i : K)))' % text
         if want == 'fll' and ty == 'emptylist':
@@ -256,6 +379,8 @@ class OFn(B.Fn):
         text, ty = self.ex0(ind, e)
         if id(e) in self.prop_nodes and ty == 'boolv':
             return '(%s = true)' % text, 'bool'
+        if id(e) in self.prop_nodes and isinstance(e, ast.Name) and (ty == 'ctorlist' or (ty in LISTS and ty != 'bases')):
+            return self.as_prop(text, ty), 'bool'
         return text, ty
 
     def ex0(self, ind, e):
@@ -263,6 +388,13 @@ class OFn(B.Fn):
             if e.id in self.env:
                 if self.env[e.id] == 'none':
                     raise Untranslatable('use of the None-valued parameter %s' % e.id)
+                if self.env[e.id] == 'basisref':
+                    # a reference into X.bases: the object is read where it lives (it may have been mutated)
+                    _, pyobj, idx = self.alias[e.id]
+                    self.check_bases_read(ast.Name(id=pyobj))
+                    return self.bindm(ind, 'getBasis %s.bases %s' % (self.var_text(pyobj), idx)), 'basis'
+                if self.env[e.id] == 'flist' and ('#arr:' + e.id) in self.env:
+                    return self.var_text(e.id), 'nparr'
                 return self.var_text(e.id), self.env[e.id]
             if e.id in GLOBALS or e.id in ('kwargs',):
                 raise Untranslatable('global %s used as a value' % e.id)
@@ -286,6 +418,8 @@ class OFn(B.Fn):
             a, ta = self.ex(ind, e.operand)
             if ta == 'int' or ta in FLOATS:
                 return '(-%s)' % a, ta
+            if ta == 'nparr':
+                return '(listNeg %s)' % a, 'nparr'
             raise Untranslatable('negation of a %r' % ta)
         if isinstance(e, ast.Compare):
             return self.compare(ind, e)
@@ -305,24 +439,61 @@ class OFn(B.Fn):
             return self.seq_literal(ind, e)
         if isinstance(e, ast.ListComp):
             return self.comprehension(ind, e.elt, e.generators)
+        if (isinstance(e, ast.IfExp) and isinstance(e.test, ast.Compare) and len(e.test.ops) == 1
+                and isinstance(e.test.ops[0], ast.Is) and _is_none(e.test.comparators[0])
+                and isinstance(e.test.left, ast.Name) and self.env.get(e.test.left.id) == 'sel'):
+            # `A if p is None else B`: in B the selector p is an int
+            p = e.test.left.id
+            (a, ta), p1 = self.capture(lambda: self.ex(ind, e.body))
+            self.env[p] = 'int'
+            try:
+                (b, tb), p2 = self.capture(lambda: self.ex(ind, e.orelse))
+            finally:
+                self.env[p] = 'sel'
+            if p1 or p2:
+                raise Untranslatable('conditional expression with effects')
+            if ta == 'idxtok':
+                b, tb = self.coerce(b, tb, 'idxtok', 'conditional expression'), 'idxtok'
+            if ta != tb:
+                raise Untranslatable('conditional expression with branches of types %r / %r' % (ta, tb))
+            return '(match %s with | none => %s | some %s => %s)' % (lname(p), a, lname(p), b), ta
         if isinstance(e, ast.IfExp):
             self.need_prop(e.test)
             (c, tc), p0 = self.capture(lambda: self.ex(ind, e.test))
             (a, ta), p1 = self.capture(lambda: self.ex(ind, e.body))
             (b, tb), p2 = self.capture(lambda: self.ex(ind, e.orelse))
-            if p1 or p2 or ta != tb or ta not in ('int', 'pyf', 'npf', 'boolv'):
+            if p1 or p2 or ta != tb or ta not in ('int', 'pyf', 'npf', 'boolv', 'flist', 'ilist', 'sec'):
                 raise Untranslatable('conditional expression with branches of types %r / %r' % (ta, tb))
             self.lines += p0
             return '(if %s then %s else %s)' % (self.as_prop(c, tc), a, b), ta
         raise Untranslatable('expression %s' % ast.unparse(e)[:80])
 
     def compare(self, ind, e):
+        if (len(e.ops) == 1 and isinstance(e.ops[0], (ast.Is, ast.IsNot)) and _is_none(e.comparators[0])
+                and isinstance(e.left, ast.Name) and self.env.get(e.left.id) == 'sel'):
+            t = '(%s = none)' % lname(e.left.id)
+            return (t if isinstance(e.ops[0], ast.Is) else '(¬ %s)' % t), 'bool'
         st = self.static_test(e)
         if st is not None:
             return ('True' if st else 'False'), 'bool'
+        if len(e.ops) == 2 and isinstance(e.comparators[0], (ast.Name, ast.Constant)):
+            # a < b < c with a simple b (evaluated once anyway): (a < b) and (b < c)
+            mid = e.comparators[0]
+            new = ast.BoolOp(op=ast.And(), values=[
+                ast.Compare(left=e.left, ops=[e.ops[0]], comparators=[mid]),
+                ast.Compare(left=mid, ops=[e.ops[1]], comparators=[e.comparators[1]])])
+            return self.boolop(ind, new)
         if len(e.ops) != 1:
             raise Untranslatable('chained comparison')
         op = e.ops[0]
+        r0 = e.comparators[0]
+        if (isinstance(op, (ast.Eq, ast.NotEq)) and isinstance(r0, ast.Attribute) and isinstance(r0.value, ast.Name)
+                and r0.value.id == 'np' and r0.attr == 'inf' and 'np' not in self.env):
+            a, ta = self.ex(ind, e.left)
+            if ta != 'ext':
+                raise Untranslatable('comparison of a %r with np.inf' % ta)
+            t = '(%s = none)' % a
+            return (t if isinstance(op, ast.Eq) else '(¬ %s)' % t), 'bool'
         if isinstance(op, (ast.In, ast.NotIn)):
             a, ta = self.ex(ind, e.left)
             r = e.comparators[0]
@@ -348,6 +519,10 @@ class OFn(B.Fn):
         if sym is None:
             raise Untranslatable('comparison operator %s' % type(op).__name__)
         ints = ('int', 'boolv')
+        if ta == tb == 'str' and isinstance(op, (ast.Eq, ast.NotEq)):
+            return '(%s %s %s)' % (a, sym, b), 'bool'
+        if ta == 'ext' and tb in ints and isinstance(op, ast.Lt):
+            return '(extLt %s %s = true)' % (a, self.as_int(b, tb)), 'bool'
         if ta in ints and tb in ints:
             return '(%s %s %s)' % (self.as_int(a, ta), sym, self.as_int(b, tb)), 'bool'
         if (ta in ints or ta in FLOATS) and (tb in ints or tb in FLOATS):
@@ -356,10 +531,37 @@ class OFn(B.Fn):
 
     def binop(self, ind, e):
         op = type(e.op)
+        if op is ast.Add and isinstance(e.right, ast.List) and 1 <= len(e.right.elts) <= 2:
+            # bases + [cps] + [rational]  /  bases + [cps, rational]: the argument list of a constructor call
+            (a, ta), pre = self.capture(lambda: self.ex(ind, e.left))
+            if ta == 'baselist':
+                a, ta = '%s.toArray' % a, 'bases'
+            if ta in ('bases', 'ctorargs2'):
+                self.lines += pre
+                parts = [self.ex(ind, x) for x in e.right.elts]
+                tys = [t for _, t in parts]
+                if ta == 'bases' and tys == ['tensor']:
+                    return '(%s, %s)' % (a, parts[0][0]), 'ctorargs2'
+                if ta == 'bases' and tys == ['tensor', 'boolv']:
+                    return '(%s, %s, %s)' % (a, parts[0][0], parts[1][0]), 'ctorargs'
+                if ta == 'ctorargs2' and tys == ['boolv']:
+                    return '(%s.1, %s.2, %s)' % (a, a, parts[0][0]), 'ctorargs'
+                raise Untranslatable('constructor argument list of types %r + %r' % (ta, tys))
+        if self.obj_text(e.left) is not None and op in INFIX_OPS:
+            call, sig = self.fn_call_on(ind, INFIX_OPS[op], [e.right], {}, None, self.obj_text(e.left))
+            return self.bindm(ind, call), 'self'
         a, ta = self.ex(ind, e.left)
         b, tb = self.ex(ind, e.right)
         scal = lambda t: t in ('int', 'boolv') or t in FLOATS      # noqa: E731
+        if ta == 'nparr' and scal(tb) and op in (ast.Div, ast.Mult):
+            return '(%s %s %s)' % ('listDivS' if op is ast.Div else 'listMulS', a, self.cast(b, tb)), 'nparr'
+        if scal(ta) and tb == 'mat' and op is ast.Mult:
+            return '(matScale %s %s)' % (self.cast(a, ta), b), 'mat'
+        if ta == 'pyf' and tb == 'param' and op is ast.Div and isinstance(e.left, ast.Constant) and e.left.value == 1.0:
+            return self.bindm(ind, 'paramRecip %s' % b), 'param'
         sym = {ast.Add: '+', ast.Sub: '-', ast.Mult: '*'}.get(op)
+        if op is ast.Pow and ta == 'int' and tb == 'int':
+            return self.bindm(ind, 'intPow %s %s' % (a, b)), 'int'
         if op is ast.MatMult:
             if ta == tb == 'mat':
                 return '(npMatmul %s %s)' % (a, b), 'mat'
@@ -381,6 +583,15 @@ class OFn(B.Fn):
             return b, tb
         if ta in LISTS and ta != 'bases' and tb in ('int', 'boolv') and op is ast.Mult:
             return '(listMul %s %s)' % (a, self.as_int(b, tb)), ta
+        if scal(ta) and tb == 'tensor' and op is ast.Mult:
+            return '(tScale %s %s)' % (self.cast(a, ta), b), 'tensor'
+        if ta == tb == 'tensor' and op is ast.Add:
+            return '(tPlus %s %s)' % (a, b), 'tensor'
+        if ta == 'ext' and tb in ('int', 'boolv') and op in (ast.Add, ast.Sub):
+            return '(Option.map (fun (c : Int) => c %s %s) %s)' % (sym, self.as_int(b, tb), a), 'ext'
+        if ta in LISTS and ta != 'bases' and tb == 'ext' and op is ast.Mult:
+            n = self.bindm(ind, 'extCount %s' % b)
+            return '(listMul %s %s)' % (a, n), ta
         if ta == tb == 'tensor':
             f = {ast.Div: 'tDiv', ast.Mult: 'tMul', ast.Sub: 'tSub'}.get(op)
             if f:
@@ -405,19 +616,21 @@ class OFn(B.Fn):
 
     def attribute(self, ind, e):
         v = e.value
-        if isinstance(v, ast.Name) and v.id == 'self' and 'self' in self.env:
+        X = self.obj_text(v)
+        if X is not None:
             if e.attr == 'bases':
-                return 'self_.bases', 'bases'
+                self.check_bases_read(v)
+                return '%s.bases' % X, 'bases'
             if e.attr == 'controlpoints':
-                return 'self_.controlpoints', 'tensor'
+                return '%s.controlpoints' % X, 'tensor'
             if e.attr == 'dimension':
-                return 'self_.dimension', 'int'
+                return '%s.dimension' % X, 'int'
             if e.attr == 'rational':
-                return 'self_.rational', 'boolv'
+                return '%s.rational' % X, 'boolv'
             if e.attr == 'pardim':
-                call, _ = self.fn_call(ind, 'pardim', [], {})
+                call, _ = self.fn_call_on(ind, 'pardim', [], {}, None, X)
                 return self.bindm(ind, call), 'int'
-            raise Untranslatable('attribute self.%s' % e.attr)
+            raise Untranslatable('attribute %s.%s' % (v.id, e.attr))
         if isinstance(v, ast.Name) and v.id in ('np', 'copy') and v.id not in self.env:
             raise Untranslatable('%s.%s used as a value' % (v.id, e.attr))
         a, ta = self.ex(ind, v)
@@ -465,9 +678,13 @@ class OFn(B.Fn):
                 if ti != 'int':
                     raise Untranslatable('component index of type %r' % ti)
                 return self.bindm(ind, 'getLast %s %s' % (a, i)), 'tensor'
+            if isinstance(e.slice, ast.Name) and self.env.get(e.slice.id) == 'idxtoks':
+                return self.bindm(ind, 'npIndex %s %s' % (a, lname(e.slice.id))), 'tensor'
             if (isinstance(e.slice, ast.Call) and isinstance(e.slice.func, ast.Name) and e.slice.func.id == 'tuple'
                     and len(e.slice.args) == 1):
                 s, ts = self.ex(ind, e.slice.args[0])
+                if ts == 'idxtoks':
+                    return self.bindm(ind, 'npIndex %s %s' % (a, s)), 'tensor'
                 if ts != 'slicetoks':
                     raise Untranslatable('index tuple of a %r' % ts)
                 return self.bindm(ind, 'npIndexSlices %s %s' % (a, s)), 'tensor'
@@ -477,8 +694,14 @@ class OFn(B.Fn):
                     and ast.unparse(e.slice.elts[0]) == ':' and ast.unparse(e.slice.elts[1]) == ':-1'):
                 return '(matDropLastCol %s)' % a, 'mat'
             raise Untranslatable('subscript of a 2-d array: %s' % ast.unparse(e.slice)[:40])
+        if ta == 'ctorlist':
+            if not _const(e.slice, 0):
+                raise Untranslatable('constructor list indexed by %s' % ast.unparse(e.slice))
+            return self.bindm(ind, 'ctorFirst %s' % a), 'ctor'
         if ta not in LISTS:
             raise Untranslatable('subscript of a %r' % ta)
+        if isinstance(e.slice, ast.Name) and self.env.get(e.slice.id) == 'idxtok' and ta != 'bases':
+            return self.bindm(ind, 'sliceTok %s %s' % (a, lname(e.slice.id))), ta
         if isinstance(e.slice, ast.Slice):
             if ta == 'bases':
                 raise Untranslatable('slice of self.bases')
@@ -494,11 +717,22 @@ class OFn(B.Fn):
         return self.bindm(ind, 'getItem %s %s' % (a, i)), ELEM[ta]
 
     # -------------------------------------------------------------------------------------------- calls
-    def fn_call(self, ind, key, args, kws, star=None):
+    def fn_call_on(self, ind, key, args, kws, star, recv):
+        """fn_call with a receiver; a subclass that overrides fn_call with the original signature (receiver = self)
+        keeps working for calls on `self`."""
+        if recv == 'self_':
+            return self.fn_call(ind, key, args, kws, star)
+        return OFn.fn_call(self, ind, key, args, kws, star, recv=recv)
+
+    def fn_call(self, ind, key, args, kws, star=None, recv='self_'):
         """Call of a translated function / method; returns (monadic call text, sig)."""
         sig = SIGS[key]
         params = sig['params']
-        if len(args) > len(params) or any(k not in [p for p, _, _ in params] for k in kws):
+        kwonly = sig.get('kwonly') or []
+        extra = []
+        if sig.get('vararg') and star is None and len(args) > len(params):
+            extra, args = args[len(params):], args[:len(params)]
+        if len(args) > len(params) or any(k not in [p for p, _, _ in params + kwonly] for k in kws):
             raise Untranslatable('call of %s with unexpected arguments' % key)
         texts = []
         for j, (p, ty, dflt) in enumerate(params):
@@ -507,7 +741,8 @@ class OFn(B.Fn):
             elif p in kws:
                 node = kws[p]
             elif dflt is not NODEFAULT:
-                node = ast.Constant(dflt)
+                node = (ast.Tuple(elts=[ast.Constant(x) for x in dflt], ctx=ast.Load()) if isinstance(dflt, tuple)
+                        else ast.Constant(dflt))
             else:
                 raise Untranslatable('call of %s without argument %s' % (key, p))
             if ty == 'none':
@@ -518,21 +753,46 @@ class OFn(B.Fn):
                 raise Untranslatable('specialisation %s called with None for %s' % (key, p))
             a, ta = self.ex(ind, node)
             texts.append(self.coerce(a, ta, ty, 'argument %s of %s' % (p, key)))
-        if sig.get('vararg'):
+        if sig.get('vararg') and extra:
+            want = ELEM[sig['vararg'][1]]
+            items = []
+            for x in extra:
+                a, ta = self.ex(ind, x)
+                items.append(self.coerce(a, ta, want, '*%s of %s' % (sig['vararg'][0], key)))
+            texts.append('([%s] : %s)' % (', '.join(items), LEAN_TYPE[sig['vararg'][1]]))
+        elif sig.get('vararg'):
             if star is None:
                 raise Untranslatable('call of %s without *%s' % (key, sig['vararg'][0]))
             a, ta = self.ex(ind, star)
             texts.append(self.coerce(a, ta, sig['vararg'][1], '*%s of %s' % (sig['vararg'][0], key)))
         elif star is not None:
             raise Untranslatable('call of %s with a starred argument' % key)
+        for p, ty, dflt in kwonly:
+            node = kws.get(p, ast.Constant(dflt))
+            if ty == 'none':
+                if not _is_none(node):
+                    raise Untranslatable('specialisation %s called with a value for %s' % (key, p))
+                continue
+            if _is_none(node):
+                raise Untranslatable('specialisation %s called with None for %s' % (key, p))
+            a, ta = self.ex(ind, node)
+            texts.append(self.coerce(a, ta, ty, 'argument %s of %s' % (p, key)))
         if sig.get('kwargs'):
-            raise Untranslatable('call of %s, which takes **kwargs' % key)
+            if any(k in sig['kwargs'] for k in kws) or key != 'section':
+                raise Untranslatable('call of %s, which takes **kwargs' % key)
+            for k, ty in sig['kwargs'].items():          # no keyword is passed
+                if ty is not None:
+                    texts.append('none' if ty.startswith('opt') else '[]')
         self.calls.add(key)
         if key in self.floor_users:
             self.uses_floor = True
         head = lean_name(key)
+        if sig.get('fnparams'):
+            if not set(sig['fnparams']) <= set(self.sig.get('fnparams') or ()):
+                raise Untranslatable('call of %s, which needs %s' % (key, ', '.join(sig['fnparams'])))
+            texts = list(sig['fnparams']) + texts
         if sig['kind'] in ('method', 'prop'):
-            return ('%s self_ tol %s' % (head, ' '.join(texts))).rstrip(), sig
+            return ('%s %s tol %s' % (head, recv, ' '.join(texts))).rstrip(), sig
         return ('%s %s' % (head, ' '.join(texts))).rstrip(), sig
 
     def split_args(self, e):
@@ -552,24 +812,37 @@ class OFn(B.Fn):
             kws[k.arg] = k.value
         return pos, kws, star
 
+    def set_obj(self, ind, X, field, text):
+        self.emit(ind, 'let %s : PyObj K := { %s with %s := %s }' % (X, X, field, text))
+
     def basis_receiver(self, node):
-        """If `node` denotes an element of self.bases (an alias or `self.bases[i]`), returns a function
-        emitting the write-back of a new basis text; else None."""
+        """If `node` denotes an element of X.bases (a loop alias, a reference `b = X.bases[i]` or `X.bases[i]`
+        itself), returns a function emitting the write-back of a new basis text; else None."""
         if isinstance(node, ast.Name) and node.id in self.alias and self.alias[node.id][0] == 'bases':
             idx = self.alias[node.id][2]
 
             def wb(ind, newtext, name=node.id):
                 t = self.bindm(ind, 'setBasis self_.bases %s %s' % (idx, newtext))
-                self.emit(ind, 'let self_ : PyObj K := { self_ with bases := %s }' % t)
+                self.set_obj(ind, 'self_', 'bases', t)
                 self.emit(ind, 'let %s := %s' % (lname(name), newtext))
             return wb
-        if isinstance(node, ast.Subscript) and _is_self_attr(node.value, 'bases') and 'self' in self.env:
+        if isinstance(node, ast.Name) and node.id in self.alias and self.alias[node.id][0] == 'objref':
+            _, pyobj, idx = self.alias[node.id]
+            X = self.var_text(pyobj)
+
+            def wb(ind, newtext):
+                t = self.bindm(ind, 'setBasis %s.bases %s %s' % (X, idx, newtext))
+                self.set_obj(ind, X, 'bases', t)
+            return wb
+        if isinstance(node, ast.Subscript) and self.is_obj_attr(node.value, 'bases'):
+            X = self.obj_text(node.value.value)
+
             def wb(ind, newtext, sl=node.slice):
                 i, ti = self.ex(ind, sl)
                 if ti != 'int':
                     raise Untranslatable('index of type %r' % ti)
-                t = self.bindm(ind, 'setBasis self_.bases %s %s' % (i, newtext))
-                self.emit(ind, 'let self_ : PyObj K := { self_ with bases := %s }' % t)
+                t = self.bindm(ind, 'setBasis %s.bases %s %s' % (X, i, newtext))
+                self.set_obj(ind, X, 'bases', t)
             return wb
         return None
 
@@ -591,6 +864,23 @@ class OFn(B.Fn):
                 raise Untranslatable('derivative order of type %r' % td)
             self.uses_floor = True
             return '(basisEvaluate %s tol %s %s %s)' % (b, p, d, self.as_boolv(r, tr)), 'mat'
+        if meth == 'continuity' and len(pos) == 1 and not kws:
+            k, tk = self.ex(ind, pos[0])
+            self.uses_floor = True
+            return self.bindm(ind, 'basisContinuity %s tol %s' % (b, self.cast(k, tk))), 'ext'
+        if meth in ('raise_order', 'lower_order') and len(pos) == 1 and not kws:
+            r, tr = self.ex(ind, pos[0])
+            if tr != 'int':
+                raise Untranslatable('%s by a %r' % (meth, tr))
+            self.uses_floor = True
+            return self.bindm(ind, '%s %s tol %s' % ('basisRaiseOrder' if meth == 'raise_order' else 'basisLowerOrder', b, r)), 'basis'
+        if meth == 'greville' and not pos and not kws:
+            return self.bindm(ind, 'basisGreville %s' % b), 'flist'
+        if meth == 'make_periodic' and len(pos) == 1 and not kws:
+            c, tc = self.ex(ind, pos[0])
+            if tc != 'int':
+                raise Untranslatable('make_periodic with a %r' % tc)
+            return self.bindm(ind, 'basisMakePeriodic %s tol %s' % (b, c)), 'basis'
         wb = self.basis_receiver(recv_node)
         if meth == 'snap' and len(pos) == 1 and not kws and as_stmt:
             # mutates its ARGUMENT in place
@@ -611,6 +901,13 @@ class OFn(B.Fn):
             n = self.bindm(ind, 'Basis.reparam %s %s %s' % (b, self.cast(s, ts), self.cast(e_, te)))
             wb(ind, n)
             return None
+        if meth == 'roll' and len(pos) == 1 and not kws and as_stmt:
+            i, ti = self.ex(ind, pos[0])
+            if ti != 'int':
+                raise Untranslatable('roll by a %r' % ti)
+            n = self.bindm(ind, 'basisRoll %s %s' % (b, i))
+            wb(ind, n)
+            return None
         if meth == 'insert_knot' and len(pos) == 1 and not kws:
             k, tk = self.ex(ind, pos[0])
             self.uses_floor = True
@@ -629,9 +926,44 @@ class OFn(B.Fn):
 
     def call(self, ind, e):
         f = e.func
+        if (isinstance(f, ast.Name) and f.id == 'check_section' and f.id not in self.env
+                and 'check_section' in (self.sig.get('pins') or ())):
+            if (len(e.args) == 1 and isinstance(e.args[0], ast.Starred) and len(e.keywords) == 2
+                    and e.keywords[0].arg == 'pardim' and e.keywords[1].arg is None
+                    and isinstance(e.keywords[1].value, ast.Name) and e.keywords[1].value.id == 'kwargs'
+                    and 'kwargs' not in self.env and self.kw.get('uvw') == 'kwsel'):
+                a, ta = self.ex(ind, e.args[0].value)
+                pd, tp = self.ex(ind, e.keywords[0].value)
+                if ta != 'sec' or tp != 'int':
+                    raise Untranslatable('check_section(*%r, pardim=%r)' % (ta, tp))
+                return self.bindm(ind, 'pyCheckSection %s kw_uvw %s' % (a, pd)), 'sec'
+            raise Untranslatable('check_section in this form')
         pos, kws, star = self.split_args(e)
+        if isinstance(f, ast.Subscript) and isinstance(f.value, ast.Name) and self.env.get(f.value.id) == 'ctorlist':
+            c, tc = self.ex(ind, f)
+            if pos or star is None or set(kws) != {'raw'} or not _const(kws['raw'], True):
+                raise Untranslatable('constructor call other than C(*args, raw=True)')
+            a, ta = self.ex(ind, star)
+            if ta != 'ctorargs':
+                raise Untranslatable('constructor arguments of type %r' % ta)
+            return self.bindm(ind, 'mkRaw %s %s.1 %s.2.1 %s.2.2' % (c, a, a, a)), 'self'
+        if isinstance(f, ast.Name) and self.env.get(f.id) == 'ctor':
+            if pos or star is None or set(kws) != {'raw'} or not _const(kws['raw'], True):
+                raise Untranslatable('constructor call other than C(*args, raw=True)')
+            a, ta = self.ex(ind, star)
+            if ta != 'ctorargs':
+                raise Untranslatable('constructor arguments of type %r' % ta)
+            return self.bindm(ind, 'mkRaw %s %s.1 %s.2.1 %s.2.2' % (lname(f.id), a, a, a)), 'self'
         if isinstance(f, ast.Name) and f.id not in self.env:
             return self.name_call(ind, e, f.id, pos, kws, star)
+        if isinstance(f, ast.Name) and self.env.get(f.id) == 'basis' and star is None:
+            # BSplineBasis.__call__ = evaluate
+            return self.basis_call(ind, f, 'evaluate', pos, kws, as_stmt=False)
+        if ast.unparse(f) == 'np.linalg.inv' and 'np' not in self.env and len(pos) == 1 and not kws and star is None:
+            a, ta = self.ex(ind, pos[0])
+            if ta != 'mat':
+                raise Untranslatable('np.linalg.inv of a %r' % ta)
+            return self.bindm(ind, 'npLinalgInv %s' % a), 'mat'
         if isinstance(f, ast.Attribute):
             v = f.value
             if isinstance(v, ast.Name) and v.id == 'np' and 'np' not in self.env:
@@ -647,15 +979,23 @@ class OFn(B.Fn):
                     d, td = self.ex(ind, pos[1])
                     return '(kwGet kw_%s %s)' % (k, self.coerce(d, td, inner, 'default of kwargs.get')), inner
                 raise Untranslatable('kwargs.%s(..)' % f.attr)
-            if isinstance(v, ast.Name) and v.id == 'self' and 'self' in self.env:
+            if (isinstance(v, ast.Name) and v.id == 'copy' and 'copy' not in self.env and f.attr == 'deepcopy'
+                    and len(pos) == 1 and not kws and star is None and self.obj_text(pos[0]) is not None):
+                return self.obj_text(pos[0]), 'self'        # objects are values
+            X = self.obj_text(v)
+            if X is not None:
+                if f.attr == 'clone' and not pos and not kws and star is None:
+                    return X, 'self'
                 keys = [k for k in ORDER if py_name(k) == f.attr and SIGS[k]['kind'] == 'method']
                 if not keys:
-                    raise Untranslatable('call of the untranslated method self.%s' % f.attr)
-                key = self.pick_specialisation(keys, pos, kws)
+                    raise Untranslatable('call of the untranslated method %s.%s' % (v.id, f.attr))
+                key = self.pick_specialisation(keys, pos, kws, star)
                 sig = SIGS[key]
                 if sig['mut'] is not None:
-                    raise Untranslatable('mutating method self.%s used as a value' % f.attr)
-                call, _ = self.fn_call(ind, key, pos, kws, star)
+                    raise Untranslatable('mutating method %s.%s used as a value' % (v.id, f.attr))
+                call, _ = self.fn_call_on(ind, key, pos, kws, star, X)
+                if sig.get('fuel'):
+                    call = self.recursive_call(key, call)
                 return self.bindm(ind, call), sig['ret']
             # methods of values
             r = self.basis_call(ind, v, f.attr, pos, kws, as_stmt=False) if self.maybe_basis(v) else NotImplemented
@@ -676,6 +1016,8 @@ class OFn(B.Fn):
                 if ts != 'ilist':
                     raise Untranslatable('reshape to a %r' % ts)
                 return self.bindm(ind, 'npReshape %s %s' % (a, s)), 'tensor'
+            if ta == 'tensor' and f.attr == 'copy' and not pos and not kws:
+                return a, 'tensor'
             if ta == 'str' and f.attr == 'lower' and not pos and not kws:
                 return '(String.toLower %s)' % a, 'str'
             raise Untranslatable('call of .%s on a %r' % (f.attr, ta))
@@ -683,19 +1025,35 @@ class OFn(B.Fn):
 
     def maybe_basis(self, node):
         if isinstance(node, ast.Name):
-            return self.env.get(node.id) == 'basis'
-        return isinstance(node, ast.Subscript) and _is_self_attr(node.value, 'bases')
+            return self.env.get(node.id) in ('basis', 'basisref')
+        if isinstance(node, ast.Subscript) and self.is_obj_attr(node.value, 'bases'):
+            return True
+        return (isinstance(node, ast.Subscript) and isinstance(node.value, ast.Name)
+                and self.env.get(node.value.id) in ('baselist', 'bases') and not isinstance(node.slice, ast.Slice))
 
-    def pick_specialisation(self, keys, pos, kws):
+    def recursive_call(self, key, call):
+        """A call of the function being translated (or of another fuelled function) passes the remaining fuel."""
+        if key == self.key:
+            return call.replace(lean_name(key) + ' ', lean_name(key) + '_fuel fuel ', 1)
+        return call
+
+    def pick_specialisation(self, keys, pos, kws, star=None):
         if len(keys) == 1:
             return keys[0]
         # by the first parameter (None / omitted <-> value) or by the `direction` keyword
         cands = []
+        if sorted(keys) == ['scale', 'scale_p']:
+            # scale(x) with one operand (a number or something Sized) / scale(*numbers)
+            return 'scale_p' if star is None else 'scale'
         for k in keys:
             sig = SIGS[k]
             if sig.get('kwargs') is not None:
                 want = {kk for kk, t in sig['kwargs'].items() if t is not None and not t.startswith('opt')}
                 if want <= set(kws) and all(kk in sig['kwargs'] and sig['kwargs'][kk] is not None for kk in kws):
+                    cands.append(k)
+                continue
+            if sig.get('kwonly'):
+                if all((t == 'none') == (kws.get(p) is None or _is_none(kws.get(p))) for p, t, _ in sig['kwonly']):
                     cands.append(k)
                 continue
             p0 = sig['params'][0] if sig['params'] else None
@@ -736,12 +1094,15 @@ class OFn(B.Fn):
                 lo, hi = self.range_bounds(ind, pos[0])
                 return '(rangeI %s %s)' % (lo, hi), 'ilist'
             a, ta = self.ex(ind, pos[0])
-            if ta in LISTS and ta != 'bases' or ta == 'emptylist':
-                return a, ta
+            if ta in LISTS or ta == 'emptylist':
+                return a, ta          # a copy: values have no identity
             raise Untranslatable('%s() of a %r' % (n, ta))
         if n in ('all', 'any') and one:
             if isinstance(pos[0], ast.GeneratorExp):
-                a, ta = self.comprehension(ind, pos[0].elt, pos[0].generators)
+                a, ta = self.comprehension(ind, pos[0].elt, pos[0].generators,
+                                           shortcut='allM' if n == 'all' else 'anyM')
+                if ta == 'shortcut':
+                    return a, 'boolv'
             else:
                 a, ta = self.ex(ind, pos[0])
             if ta != 'blist':
@@ -757,12 +1118,52 @@ class OFn(B.Fn):
             if ta != 'flist':
                 raise Untranslatable('%s() of a %r' % (n, ta))
             return self.bindm(ind, '%s %s' % ('pyMin' if n == 'min' else 'pyMax', a)), 'npf'
-        if n == 'slice' and len(pos) == 3 and not kws and star is None and _is_none(pos[0]) and _is_none(pos[1]):
+        if n == 'slice' and one and _is_none(pos[0]):
+            return 'IdxTok.all', 'idxtok'
+        if n == 'int' and one:
+            a, ta = self.ex(ind, pos[0])
+            if ta in ('int', 'boolv'):
+                return self.as_int(a, ta), 'int'
+            raise Untranslatable('int() of a %r' % ta)
+        if n == 'sections' and len(pos) == 2 and not kws and star is None and 'sections' in (self.sig.get('pins') or ()):
+            a, ta = self.ex(ind, pos[0])
+            b, tb = self.ex(ind, pos[1])
+            if ta != 'int' or tb != 'int':
+                raise Untranslatable('sections(%r, %r)' % (ta, tb))
+            return self.bindm(ind, 'pySections %s %s' % (a, b)), 'seclist'
+        if n == 'SplineObject' and len(pos) == 3 and star is None and set(kws) == {'raw'} and _const(kws['raw'], True):
+            a, ta = self.ex(ind, pos[0])
+            c, tc = self.ex(ind, pos[1])
+            r, tr = self.ex(ind, pos[2])
+            if ta == 'baselist':
+                a, ta = '%s.toArray' % a, 'bases'
+            if ta != 'bases' or tc != 'tensor' or tr != 'boolv':
+                raise Untranslatable('SplineObject(%r, %r, %r, raw=True)' % (ta, tc, tr))
+            return self.bindm(ind, 'mkRawObj %s %s %s' % (a, c, r)), 'self'
+        if n == 'slice' and len(pos) == 3 and not kws and star is None and _is_none(pos[0]) and _is_none(pos[1]) \
+                and not self.idx_mode:
             if _is_none(pos[2]):
                 return 'SliceTok.all', 'slicetok'
             if ast.unparse(pos[2]) == '-1':
                 return 'SliceTok.rev', 'slicetok'
             raise Untranslatable('slice step %s' % ast.unparse(pos[2]))
+        if n == 'slice' and len(pos) == 3 and not kws and star is None and _is_none(pos[2]):
+            if _is_none(pos[0]) and _is_none(pos[1]):
+                return 'IdxTok.all', 'idxtok'
+            return '(IdxTok.range %s %s)' % (self.opt_int(ind, None if _is_none(pos[0]) else pos[0]),
+                                            self.opt_int(ind, None if _is_none(pos[1]) else pos[1])), 'idxtok'
+        if n == 'BSplineBasis' and len(pos) == 2 and not kws and star is None:
+            o_, to = self.ex(ind, pos[0])
+            k_, tk = self.ex(ind, pos[1])
+            if to != 'int' or tk != 'flist':
+                raise Untranslatable('BSplineBasis(%r, %r)' % (to, tk))
+            return self.bindm(ind, 'mkBasis %s %s tol' % (o_, k_)), 'basis'
+        if n == 'bisect_left' and len(pos) == 2 and not kws and star is None:
+            a, ta = self.ex(ind, pos[0])
+            v, tv = self.ex(ind, pos[1])
+            if ta != 'flist':
+                raise Untranslatable('bisect_left on a %r' % ta)
+            return '(pyBisectLeft %s %s)' % (a, self.cast(v, tv)), 'int'
         if n == 'is_singleton' and one:
             a, ta = self.ex(ind, pos[0])
             if ta != 'param':
@@ -783,16 +1184,28 @@ class OFn(B.Fn):
             return '(ensure_listlike_dups %s %s)' % (a, d), ta
         if n == 'ensure_flatlist' and one:
             a, ta = self.ex(ind, pos[0])
+            if ta == 'paramlist':
+                return self.bindm(ind, 'ensure_flatlist_p %s' % a), 'paramlist'
             if ta != 'flist':
                 raise Untranslatable('ensure_flatlist of a %r' % ta)
             return self.bindm(ind, 'ensure_flatlist %s' % a), 'flist'
-        if n in ('check_direction', 'transpose_fix') or (n == 'evaluate' and 'evaluate' not in self.env):
+        if (n == 'check_direction' and len(pos) == 2 and not kws and star is None and isinstance(pos[0], ast.Name)
+                and self.env.get(pos[0].id) == 'none'):
+            # check_direction(None, pardim): None is in none of the three sets, ValueError (after the arguments)
+            self.ex(ind, pos[1])
+            return self.bindm(ind, '(throw PyErr.value : PyM Int)'), 'int'
+        if n in ('check_direction', 'transpose_fix', 'rotation_matrix') or (n == 'evaluate' and 'evaluate' not in self.env):
             key = 'evaluate_fn' if n == 'evaluate' else n
             call, sig = self.fn_call(ind, key, pos, kws, star)
             return self.bindm(ind, call), sig['ret']
         raise Untranslatable('call of %s' % n)
 
     def np_call(self, ind, attr, pos, kws):
+        if attr == 'linspace' and len(pos) == 3 and not kws:
+            a, ta = self.ex(ind, pos[0])
+            b, tb = self.ex(ind, pos[1])
+            n, tn = self.ex(ind, pos[2])
+            return '(npLinspace %s %s %s)' % (self.cast(a, ta), self.cast(b, tb), self.as_int(n, tn)), 'flist'
         if attr == 'identity' and len(pos) == 1 and not kws:
             a, ta = self.ex(ind, pos[0])
             return self.bindm(ind, 'npIdentity %s' % self.as_int(a, ta)), 'mat'
@@ -864,11 +1277,39 @@ class OFn(B.Fn):
             if tt == 'tensor':
                 return self.bindm(ind, 'npReshape %s %s' % (t, s)), 'tensor'
             raise Untranslatable('np.reshape of a %r' % tt)
+        if attr in ('cos', 'sin', 'sqrt') and len(pos) == 1 and not kws:
+            f = attr + '_'
+            if f not in (self.sig.get('fnparams') or ()):
+                raise Untranslatable('np.%s in a function without the abstract input %s' % (attr, f))
+            a, ta = self.ex(ind, pos[0])
+            if not (ta in FLOATS or ta == 'int'):
+                raise Untranslatable('np.%s of a %r' % (attr, ta))
+            return '(%s %s)' % (f, self.cast(a, ta)), 'npf'
+        if attr == 'dot' and len(pos) == 2 and not kws:
+            a, ta = self.ex(ind, pos[0])
+            b, tb = self.ex(ind, pos[1])
+            if ta != 'nparr' or tb != 'nparr':
+                raise Untranslatable('np.dot of %r, %r' % (ta, tb))
+            return '(listDot %s %s)' % (a, b), 'npf'
+        if attr == 'outer' and len(pos) == 2 and not kws:
+            a, ta = self.ex(ind, pos[0])
+            b, tb = self.ex(ind, pos[1])
+            if ta != 'nparr' or tb != 'nparr':
+                raise Untranslatable('np.outer of %r, %r' % (ta, tb))
+            return '(npOuter %s %s)' % (a, b), 'mat'
         if attr == 'array' and len(pos) == 1 and not kws:
             a, ta = self.ex(ind, pos[0])
-            if ta in ('mat', 'tensor'):
+            if ta in ('mat', 'tensor', 'nparr'):
                 return a, ta
+            if ta == 'flist':
+                return a, 'nparr'
+            if ta == 'fll':
+                return self.bindm(ind, 'matOfRows %s' % a), 'mat'
             raise Untranslatable('np.array of a %r' % ta)
+        if attr == 'zeros' and len(pos) == 1 and not kws and isinstance(pos[0], ast.Tuple) and len(pos[0].elts) == 2:
+            n, tn = self.ex(ind, pos[0].elts[0])
+            m, tm_ = self.ex(ind, pos[0].elts[1])
+            return self.bindm(ind, 'npZeros2 %s %s' % (self.as_int(n, tn), self.as_int(m, tm_))), 'mat'
         if attr == 'ones' and len(pos) == 1 and not kws and isinstance(pos[0], ast.Tuple) and len(pos[0].elts) == 2:
             n, tn = self.ex(ind, pos[0].elts[0])
             m, tm_ = self.ex(ind, pos[0].elts[1])
@@ -889,6 +1330,10 @@ class OFn(B.Fn):
                 tys.append(ty)
                 srcs.append(src)
             return '(zip%d %s)' % (len(texts), ' '.join(texts)), tys, srcs
+        if (isinstance(it, ast.Call) and isinstance(it.func, ast.Name) and it.func.id == 'enumerate'
+                and 'enumerate' not in self.env and len(it.args) == 1 and not it.keywords):
+            t, ty, src = self.one_source(ind, it.args[0])
+            return '(pyEnumerate %s)' % t, ['int', ty], [None, None]
         t, ty, src = self.one_source(ind, it)
         return t, [ty], [src]
 
@@ -934,10 +1379,12 @@ class OFn(B.Fn):
                 raise Untranslatable('loop target %s' % ast.unparse(t))
         return out
 
-    def comprehension(self, ind, elt, gens):
-        if len(gens) != 1 or gens[0].ifs or gens[0].is_async:
-            raise Untranslatable('comprehension with several generators / a filter')
+    def comprehension(self, ind, elt, gens, shortcut=None):
+        if len(gens) != 1 or len(gens[0].ifs) > 1 or gens[0].is_async:
+            raise Untranslatable('comprehension with several generators / filters')
         g = gens[0]
+        if g.ifs:
+            return self.comprehension_if(ind, elt, g)
         src, tys, _ = self.iter_source(ind, g.iter)
         saved = dict(self.env)
         saved_alias = dict(self.alias)
@@ -955,9 +1402,41 @@ class OFn(B.Fn):
         if ty not in LISTOF:
             raise Untranslatable('comprehension element of type %r' % ty)
         r = self.tmp()
+        if shortcut and ty == 'boolv' and any('←' in l or 'throw' in l for l in pre):
+            # the body may raise: all()/any() consume the generator lazily and stop at the deciding element
+            self.emit(ind, 'let %s ← %s %s (fun %s => do' % (r, shortcut, src, x))
+            self.lines += pre
+            self.emit(ind + 2, 'pure %s)' % t)
+            return r, 'shortcut'
         self.emit(ind, 'let %s ← listComp %s (fun %s => do' % (r, src, x))
         self.lines += pre
         self.emit(ind + 2, 'pure %s)' % t)
+        return r, LISTOF[ty]
+
+    def comprehension_if(self, ind, elt, g):
+        """`[elt for .. in .. if cond]` with an effect-free element."""
+        src, tys, _ = self.iter_source(ind, g.iter)
+        saved, saved_alias = dict(self.env), dict(self.alias)
+        x = 'x%d' % (self.ntmp + 1)
+        self.ntmp += 1
+        self.need_prop(g.ifs[0])
+
+        def body():
+            self.bind_targets(ind + 2, g.target, tys, x)
+            c, tc = self.ex(ind + 2, g.ifs[0])
+            n = len(self.lines)
+            t, ty = self.ex(ind + 2, elt)
+            if len(self.lines) != n:
+                raise Untranslatable('filtered comprehension whose element has effects')
+            return self.as_prop(c, tc), t, ty
+        (c, t, ty), pre = self.capture(body)
+        self.env, self.alias = saved, saved_alias
+        if ty not in LISTOF:
+            raise Untranslatable('comprehension element of type %r' % ty)
+        r = self.tmp()
+        self.emit(ind, 'let %s ← listCompIf %s (fun %s => do' % (r, src, x))
+        self.lines += pre
+        self.emit(ind + 2, 'pure (decide %s, %s))' % (c, t))
         return r, LISTOF[ty]
 
     def range_bounds(self, ind, it):
@@ -970,7 +1449,7 @@ class OFn(B.Fn):
         return ('(0 : Int)', parts[0]) if len(parts) == 1 else (parts[0], parts[1])
 
     # -------------------------------------------------------------------------------------- statements
-    MUTATING_BASIS = ('reverse', 'reparam', 'insert_knot')
+    MUTATING_BASIS = ('reverse', 'reparam', 'insert_knot', 'roll')
 
     def assigned(self, stmts):
         out = []
@@ -992,9 +1471,17 @@ class OFn(B.Fn):
                     tgt(x)
             else:
                 b = base(t)
-                if b:
+                if b and b in aliases and aliases[b][0] == 'objref':
+                    add(aliases[b][1])          # a store through a reference changes the object it lives in
+                elif b:
                     add(b)
         aliases = dict(self.alias)
+        for s in stmts:
+            for n in ast.walk(s):
+                if (isinstance(n, ast.Assign) and len(n.targets) == 1 and isinstance(n.targets[0], ast.Name)
+                        and isinstance(n.value, ast.Subscript) and isinstance(n.value.value, ast.Attribute)
+                        and n.value.value.attr == 'bases' and isinstance(n.value.value.value, ast.Name)):
+                    aliases[n.targets[0].id] = ('objref', n.value.value.value.id, None)
         for s in stmts:
             for n in ast.walk(s):
                 if isinstance(n, ast.For):
@@ -1026,24 +1513,29 @@ class OFn(B.Fn):
                         if isinstance(f.value, ast.Name) and f.value.id in aliases and aliases[f.value.id][0] == 'bases':
                             add('self')
                             add(f.value.id)
-                        elif isinstance(f.value, ast.Subscript) and _is_self_attr(f.value.value, 'bases'):
-                            add('self')
+                        elif isinstance(f.value, ast.Name) and f.value.id in aliases and aliases[f.value.id][0] == 'objref':
+                            add(aliases[f.value.id][1])
+                        elif (isinstance(f.value, ast.Subscript) and isinstance(f.value.value, ast.Attribute)
+                              and f.value.value.attr == 'bases' and isinstance(f.value.value.value, ast.Name)):
+                            add(f.value.value.value.id)
                     if f.attr == 'snap' and n.args and isinstance(n.args[0], ast.Name):
                         x = n.args[0].id
                         add(x)
                         if x in aliases and aliases[x][0] == 'list':
                             add(aliases[x][1])
-                    if isinstance(f.value, ast.Name) and f.value.id == 'self':
+                    if isinstance(f.value, ast.Name) and (f.value.id == 'self' or self.env.get(f.value.id) == 'self'):
                         keys = [k for k in ORDER if py_name(k) == f.attr and SIGS[k]['kind'] == 'method']
                         for k in keys:
                             m = SIGS[k]['mut']
                             if m == 'self':
-                                add('self')
+                                add(f.value.id)
                             elif m is not None:
                                 for a in n.args:
                                     if isinstance(a, ast.Starred) and isinstance(a.value, ast.Name):
                                         add(a.value.id)
-        return out
+        # references (`b = X.bases[i]`) are not Lean variables: nothing to carry
+        return [n for n in out if not (n in aliases and aliases[n][0] == 'objref')
+                and self.env.get(n) != 'basisref']
 
     def bind_var(self, ind, name, text, ty, monadic=False):
         if name in GLOBALS or name in B.GLOBALS or re.fullmatch(r'(tmp|st|x)\d+', name) or name in ('self_', 'tol', 'kwargs') \
@@ -1051,7 +1543,21 @@ class OFn(B.Fn):
             raise Untranslatable('assignment to the reserved name %s' % name)
         if ty in ('bool',):
             text, ty = '(decide %s)' % text, 'boolv'
-        if ty == 'emptylist':
+        if self.env.get(name) == 'ext' and ty == 'int' and not monadic:
+            text, ty = '(some %s)' % text, 'ext'      # an int stored where an int-or-inf lives
+        if name in self.alias and self.alias[name][0] == 'objref':
+            del self.alias[name]
+        self.list_alias.pop(name, None)
+        # a 1-d numpy array lives in a variable of type 'flist' that is flagged (the flag is part of env, so it is
+        # restored / dropped at `if` joins exactly like a type)
+        self.env.pop('#arr:' + name, None)
+        if ty == 'nparr':
+            ty = 'flist'
+            self.env['#arr:' + name] = 'nparr'
+        if ty == 'emptylist' and name in (self.sig.get('locals') or {}):
+            ty = self.sig['locals'][name]         # declared element type (checked by the elaborator)
+            self.emit(ind, 'let %s : %s := []' % (lname(name), LEAN_TYPE[ty]))
+        elif ty == 'emptylist':
             pass        # bound when the element type is known (first append / the loop that fills it)
         else:
             self.emit(ind, 'let %s %s %s' % (lname(name), '←' if monadic else ':=', text))
@@ -1060,13 +1566,35 @@ class OFn(B.Fn):
     def set_self(self, ind, field, text):
         self.emit(ind, 'let self_ : PyObj K := { self_ with %s := %s }' % (field, text))
 
+    def detach_refs(self, ind, pyobj):
+        """`X.bases[i] = ..` / `X.bases = ..` re-binds a slot: references `b = X.bases[j]` keep the OLD object.
+        They become plain values (a later mutation through them is outside the subset)."""
+        for name, al in list(self.alias.items()):
+            if al[0] == 'objref' and al[1] == pyobj and self.env.get(name) == 'basisref':
+                t = self.bindm(ind, 'getBasis %s.bases %s' % (self.var_text(pyobj), al[2]))
+                self.emit(ind, 'let %s := %s' % (lname(name), t))
+                self.env[name] = 'basis'
+                del self.alias[name]
+
     def assign_to(self, ind, t, v, tv):
         if isinstance(t, ast.Name):
             return self.bind_var(ind, t.id, v, tv)
-        if isinstance(t, ast.Attribute) and isinstance(t.value, ast.Name) and t.value.id == 'self' and 'self' in self.env:
+        if isinstance(t, ast.Attribute) and isinstance(t.value, ast.Name) and self.env.get(t.value.id) == 'basisref':
+            # b.periodic = .. / b.knots = ..  on a reference into X.bases
+            b, _ = self.ex(ind, t.value)
+            wb = self.basis_receiver(t.value)
+            if t.attr == 'periodic' and tv == 'int':
+                return wb(ind, '{ %s with periodic := %s }' % (b, v))
+            if t.attr == 'knots' and tv == 'flist':
+                return wb(ind, '{ %s with knots := %s.toArray }' % (b, v))
+            raise Untranslatable('assignment of a %r to .%s of a basis' % (tv, t.attr))
+        if isinstance(t, ast.Attribute) and self.obj_text(t.value) is not None:
+            X = self.obj_text(t.value)
             want = {'controlpoints': 'tensor', 'dimension': 'int', 'rational': 'boolv', 'bases': 'bases'}.get(t.attr)
             if want is None:
-                raise Untranslatable('assignment to self.%s' % t.attr)
+                raise Untranslatable('assignment to %s.%s' % (t.value.id, t.attr))
+            if t.attr == 'bases':
+                self.detach_refs(ind, t.value.id)
             if t.attr == 'rational' and tv == 'int':
                 m = re.fullmatch(r'\((-?\d+) : Int\)', v)
                 if not m or int(m.group(1)) not in (0, 1):
@@ -1076,24 +1604,43 @@ class OFn(B.Fn):
                 v, tv = '%s.toArray' % v, 'bases'
             if tv == 'mat' and want == 'tensor':
                 raise Untranslatable('a 2-d array stored as control points without reshape')
-            return self.set_self(ind, t.attr, self.coerce(v, tv, want, 'self.%s' % t.attr))
+            return self.set_obj(ind, X, t.attr, self.coerce(v, tv, want, '%s.%s' % (t.value.id, t.attr)))
         if isinstance(t, ast.Subscript):
             tgt = t.value
-            if _is_self_attr(tgt, 'bases') and 'self' in self.env:
+            if self.is_obj_attr(tgt, 'bases'):
+                X = self.obj_text(tgt.value)
+                self.detach_refs(ind, tgt.value.id)
                 i, ti = self.ex(ind, t.slice)
                 if ti != 'int' or tv != 'basis':
-                    raise Untranslatable('self.bases[%r] = %r' % (ti, tv))
-                n = self.bindm(ind, 'setBasis self_.bases %s %s' % (i, v))
-                return self.set_self(ind, 'bases', n)
-            if _is_self_attr(tgt, 'controlpoints') and 'self' in self.env:
+                    raise Untranslatable('%s.bases[%r] = %r' % (tgt.value.id, ti, tv))
+                n = self.bindm(ind, 'setBasis %s.bases %s %s' % (X, i, v))
+                return self.set_obj(ind, X, 'bases', n)
+            if self.is_obj_attr(tgt, 'controlpoints'):
+                X = self.obj_text(tgt.value)
                 el = self.ellipsis_index(t.slice)
                 if el is None:
-                    raise Untranslatable('item assignment into self.controlpoints')
+                    raise Untranslatable('item assignment into %s.controlpoints' % tgt.value.id)
                 i, ti = self.ex(ind, el)
-                n = self.store_last(ind, 'self_.controlpoints', i, ti, v, tv)
-                return self.set_self(ind, 'controlpoints', n)
+                n = self.store_last(ind, '%s.controlpoints' % X, i, ti, v, tv)
+                return self.set_obj(ind, X, 'controlpoints', n)
+            if isinstance(tgt, ast.Name) and tgt.id in self.list_alias and self.env.get(tgt.id) == 'bases':
+                # `l = X.bases; l[i] = b` changes X.bases itself: from here on X.bases must not be read
+                self.tainted.add(self.list_alias[tgt.id])
             if isinstance(tgt, ast.Name) and tgt.id in self.env:
                 cur, cty = lname(tgt.id), self.env[tgt.id]
+                if cty == 'bases' and not isinstance(t.slice, ast.Slice):
+                    i, ti = self.ex(ind, t.slice)
+                    if ti != 'int' or tv != 'basis':
+                        raise Untranslatable('%s[%r] = %r' % (tgt.id, ti, tv))
+                    self.emit(ind, 'let %s ← setBasis %s %s %s' % (cur, cur, i, v))
+                    return None
+                if (cty == 'tensor' and isinstance(t.slice, ast.Call) and isinstance(t.slice.func, ast.Name)
+                        and t.slice.func.id == 'tuple' and len(t.slice.args) == 1):
+                    ix, tix = self.ex(ind, t.slice.args[0])
+                    if tix != 'idxtoks' or tv != 'tensor':
+                        raise Untranslatable('array[tuple(%r)] = %r' % (tix, tv))
+                    self.emit(ind, 'let %s ← npSetIndex %s %s %s' % (cur, cur, ix, v))
+                    return None
                 if cty == 'tensor':
                     el = self.ellipsis_index(t.slice)
                     if el is None:
@@ -1109,10 +1656,24 @@ class OFn(B.Fn):
                                 raise Untranslatable('cp[:, :-1] = %r' % tv)
                             self.emit(ind, 'let %s ← matSetButLastCol %s %s' % (cur, cur, v))
                             return None
+                        if ast.unparse(t.slice.elts[1]) == ':' and tv == 'secres':
+                            r, tr = self.ex(ind, t.slice.elts[0])
+                            if tr != 'int':
+                                raise Untranslatable('row index of type %r' % tr)
+                            self.emit(ind, 'let %s ← matSetRowSec %s %s %s' % (cur, cur, r, v))
+                            return None
+                        blk = self.block_bounds(ind, t.slice)
+                        if blk is not None:
+                            if tv != 'mat':
+                                raise Untranslatable('block assignment of a %r' % tv)
+                            self.emit(ind, 'let %s ← matBlockSet %s %s %s %s' % (cur, cur, blk[0], blk[1], v))
+                            return None
                         r, tr = self.ex(ind, t.slice.elts[0])
                         c, tc = self.ex(ind, t.slice.elts[1])
                         if tr != 'int' or tc != 'int':
                             raise Untranslatable('matrix index types')
+                        if tv == 'param':
+                            v, tv = self.bindm(ind, 'paramScalar %s' % v), 'npf'
                         self.emit(ind, 'let %s ← setItem2 %s %s %s %s' % (cur, cur, r, c, self.cast(v, tv)))
                         return None
                     raise Untranslatable('matrix item assignment')
@@ -1125,6 +1686,20 @@ class OFn(B.Fn):
             raise Untranslatable('item assignment into %s' % ast.unparse(tgt))
         raise Untranslatable('assignment target %s' % ast.unparse(t))
 
+    def block_bounds(self, ind, sl):
+        """`[0:r, 0:c]`: (r text, c text), else None."""
+        if not (isinstance(sl, ast.Tuple) and len(sl.elts) == 2 and all(isinstance(x, ast.Slice) for x in sl.elts)):
+            return None
+        out = []
+        for x in sl.elts:
+            if x.step is not None or x.lower is None or x.upper is None or not _const(x.lower, 0):
+                raise Untranslatable('block index %s' % ast.unparse(sl))
+            a, ta = self.ex(ind, x.upper)
+            if ta != 'int':
+                raise Untranslatable('block bound of type %r' % ta)
+            out.append(a)
+        return out
+
     def store_last(self, ind, cur, i, ti, v, tv):
         if ti != 'int':
             raise Untranslatable('component index of type %r' % ti)
@@ -1135,8 +1710,70 @@ class OFn(B.Fn):
         raise Untranslatable('t[..., i] = a %r' % tv)
 
     def stmt(self, ind, s, rest, fallthrough):
+        pt = self.sig.get('pinned_tail')
+        if pt and s in self.node.body and ast.unparse(s) == pt[0]:
+            # a pinned block of statements that is replaced as a whole (documented idealisation)
+            tail = [s] + list(rest)
+            if tail != self.node.body[self.node.body.index(s):]:
+                raise Untranslatable('pinned tail of %s is not the end of the body' % self.key)
+            dg = hashlib.sha256('\n'.join(ast.dump(x) for x in tail).encode()).hexdigest()[:16]
+            if dg != pt[1]:
+                raise Untranslatable('the pinned tail of %s changed (digest %s, expected %s)' % (self.key, dg, pt[1]))
+            self.emit(ind, 'throw .other')
+            return True
         if isinstance(s, ast.Assign) and len(s.targets) == 1:
             t = s.targets[0]
+            v0 = s.value
+            if (isinstance(t, ast.Name) and isinstance(v0, ast.Subscript) and self.is_obj_attr(v0.value, 'bases')
+                    and not isinstance(v0.slice, ast.Slice)):
+                # b = X.bases[i]: a REFERENCE to the basis object that lives in X.bases
+                self.check_bases_read(v0.value.value)
+                i, ti = self.ex(ind, v0.slice)
+                if ti != 'int':
+                    raise Untranslatable('index of type %r' % ti)
+                if t.id in GLOBALS or t.id in B.GLOBALS:
+                    raise Untranslatable('assignment to the reserved name %s' % t.id)
+                iv = 'ref_%s_%d' % (t.id, self.ntmp + 1)
+                self.ntmp += 1
+                self.emit(ind, 'let %s := %s' % (iv, i))
+                self.bindm(ind, 'getBasis %s.bases %s' % (self.obj_text(v0.value.value), iv))   # IndexError here
+                self.alias[t.id] = ('objref', v0.value.value.id, iv)
+                self.env[t.id] = 'basisref'
+                return False
+            if isinstance(t, ast.Name) and isinstance(v0, ast.ListComp):
+                m = re.fullmatch(r'\[c for c in SplineObject\.__subclasses__\(\) if c\._intended_pardim == (len\(.*\))\]',
+                                 ast.unparse(v0))
+                if m:
+                    n, tn = self.ex(ind, ast.parse(m.group(1), mode='eval').body)
+                    self.bind_var(ind, t.id, n, 'ctorlist')
+                    return False
+            if isinstance(t, ast.Name) and t.id in self.idx_vars:
+                self.idx_mode = True
+                try:
+                    v, tv = self.ex(ind, v0)
+                finally:
+                    self.idx_mode = False
+                self.assign_to(ind, t, v, tv)
+                return False
+            if (isinstance(t, ast.Subscript) and isinstance(t.value, ast.Name) and t.value.id in self.idx_vars):
+                self.idx_mode = True
+                try:
+                    v, tv = self.ex(ind, v0)
+                finally:
+                    self.idx_mode = False
+                self.assign_to(ind, t, v, tv)
+                return False
+            if isinstance(t, ast.Name) and self.is_obj_attr(v0, 'bases'):
+                # l = X.bases: the list object itself (an assignment l[i] = .. changes X.bases)
+                a, ta = self.ex(ind, v0)
+                self.bind_var(ind, t.id, a, ta)
+                self.list_alias[t.id] = v0.value.id
+                return False
+            if (isinstance(t, ast.Attribute) and isinstance(t.value, ast.Name)
+                    and self.env.get(t.value.id) == 'basisref'):
+                v, tv = self.ex(ind, v0)
+                self.assign_to(ind, t, v, tv)
+                return False
             if isinstance(t, ast.Tuple) and not isinstance(s.value, ast.Tuple):
                 # a, b = seq
                 if len(t.elts) == 2 and all(isinstance(x, ast.Name) for x in t.elts):
@@ -1147,9 +1784,41 @@ class OFn(B.Fn):
                     self.bind_var(ind, t.elts[0].id, '%s.1' % u, 'npf')
                     self.bind_var(ind, t.elts[1].id, '%s.2' % u, 'npf')
                     return False
+                if len(t.elts) == 3 and all(isinstance(x, ast.Name) for x in t.elts):
+                    v, tv = self.ex(ind, s.value)
+                    if tv not in ('flist', 'nparr'):
+                        raise Untranslatable('unpacking of a %r' % tv)
+                    u = self.bindm(ind, 'unpack3 %s' % v)
+                    self.bind_var(ind, t.elts[0].id, '%s.1' % u, 'npf')
+                    self.bind_var(ind, t.elts[1].id, '%s.2.1' % u, 'npf')
+                    self.bind_var(ind, t.elts[2].id, '%s.2.2' % u, 'npf')
+                    return False
                 raise Untranslatable('tuple assignment from a non-tuple')
         if isinstance(s, ast.AugAssign):
             t = s.target
+            if (isinstance(t, ast.Attribute) and isinstance(t.value, ast.Name)
+                    and self.env.get(t.value.id) == 'basisref'):
+                new = ast.BinOp(left=ast.Attribute(value=ast.Name(id=t.value.id, ctx=ast.Load()), attr=t.attr,
+                                                   ctx=ast.Load()), op=s.op, right=s.value)
+                v, tv = self.ex(ind, new)
+                self.assign_to(ind, t, v, tv)
+                return False
+            if (isinstance(t, ast.Subscript) and isinstance(t.value, ast.Name) and self.env.get(t.value.id) == 'mat'
+                    and isinstance(s.op, ast.Sub)):
+                blk = self.block_bounds(ind, t.slice)
+                if blk is not None:
+                    v, tv = self.ex(ind, s.value)
+                    if tv != 'mat':
+                        raise Untranslatable('block -= a %r' % tv)
+                    cur = lname(t.value.id)
+                    self.emit(ind, 'let %s ← matBlockSub %s %s %s %s' % (cur, cur, blk[0], blk[1], v))
+                    return False
+            if isinstance(t, ast.Name) and t.id != 'self' and self.env.get(t.id) == 'self' and type(s.op) in INPLACE_OPS:
+                # obj op= x : type(obj).__iop__(obj, x), the result is bound to the name
+                key = INPLACE_OPS[type(s.op)]
+                call, sig = self.fn_call_on(ind, key, [s.value], {}, None, self.var_text(t.id))
+                self.emit(ind, 'let %s ← %s' % (self.var_text(t.id), call))
+                return False
             if isinstance(t, ast.Subscript):
                 el = self.ellipsis_index(t.slice)
                 if el is not None and isinstance(t.value, ast.Name) and self.env.get(t.value.id) == 'tensor':
@@ -1201,16 +1870,21 @@ class OFn(B.Fn):
                         raise Untranslatable('insert position of type %r' % ti)
                     self.emit(ind, 'let %s := listInsert %s %s %s' % (lname(x), lname(x), i, self.coerce(v, tv, ELEM[tx], 'insert')))
                     return False
-            if isinstance(f.value, ast.Name) and f.value.id == 'self' and 'self' in self.env:
+            if self.obj_text(f.value) is not None:
+                X = self.obj_text(f.value)
                 keys = [k for k in ORDER if py_name(k) == f.attr and SIGS[k]['kind'] == 'method']
                 if keys:
-                    key = self.pick_specialisation(keys, pos, kws)
+                    key = self.pick_specialisation(keys, pos, kws, star)
                     sig = SIGS[key]
-                    call, _ = self.fn_call(ind, key, pos, kws, star)
+                    call, _ = self.fn_call_on(ind, key, pos, kws, star, X)
                     if sig['mut'] == 'self':
                         if sig['ret'] not in (None, 'self'):
-                            raise Untranslatable('result of self.%s discarded' % f.attr)
-                        self.emit(ind, 'let self_ ← %s' % call)
+                            raise Untranslatable('result of %s.%s discarded' % (f.value.id, f.attr))
+                        live = [n for n, al in self.alias.items() if al[0] == 'objref' and al[1] == f.value.id]
+                        if live and py_name(key) not in KEEPS_BASES_OBJECTS:
+                            raise Untranslatable('%s.%s(..) may re-bind basis objects that %s refer to'
+                                                 % (f.value.id, f.attr, ', '.join(live)))
+                        self.emit(ind, 'let %s ← %s' % (X, call))
                         return False
                     if sig['mut'] is not None and sig['ret'] is None and sig.get('vararg') and sig['vararg'][0] == sig['mut'] \
                             and isinstance(star, ast.Name):
@@ -1231,11 +1905,18 @@ class OFn(B.Fn):
                     and s.exc.func.id in ERR):
                 # message arguments are evaluated before the raise: only literals and `%`-formatting of them
                 for a in s.exc.args:
-                    if not (isinstance(a, ast.Constant) or (isinstance(a, ast.BinOp) and isinstance(a.op, ast.Mod)
-                                                            and isinstance(a.left, ast.Constant))):
+                    fmt = (isinstance(a, ast.Call) and isinstance(a.func, ast.Attribute) and a.func.attr == 'format'
+                           and isinstance(a.func.value, ast.Constant) and isinstance(a.func.value.value, str)
+                           and not a.keywords)
+                    if not (isinstance(a, ast.Constant) or fmt
+                            or (isinstance(a, ast.BinOp) and isinstance(a.op, ast.Mod)
+                                and isinstance(a.left, ast.Constant))):
                         raise Untranslatable('raise with a computed message')
                     if isinstance(a, ast.BinOp):
                         self.ex(ind, a.right)      # evaluated (may raise first)
+                    if fmt:
+                        for x in a.args:
+                            self.ex(ind, x)
                 self.emit(ind, 'throw %s' % ERR[s.exc.func.id])
                 return True
             raise Untranslatable('raise of an unsupported form')
@@ -1243,6 +1924,11 @@ class OFn(B.Fn):
             return self.while_stmt(ind, s)
         if isinstance(s, ast.If):
             self.need_prop(s.test)
+            before = (dict(self.alias), dict(self.list_alias))
+            r = super().stmt(ind, s, rest, fallthrough)
+            if not r and (dict(self.alias), dict(self.list_alias)) != before:
+                raise Untranslatable('a reference / list alias is created or changed inside a branch')
+            return r
         return super().stmt(ind, s, rest, fallthrough)
 
     def ret(self, ind, value_node):
@@ -1261,6 +1947,22 @@ class OFn(B.Fn):
             if (isinstance(value_node, ast.Call) and isinstance(value_node.func, ast.Name) and value_node.func.id == 'tuple'
                     and len(value_node.args) == 1 and not isinstance(value_node.args[0], ast.GeneratorExp)):
                 value_node = value_node.args[0]
+            vn = value_node
+            if (isinstance(vn, ast.Call) and isinstance(vn.func, ast.Attribute) and isinstance(vn.func.value, ast.Name)
+                    and vn.func.value.id == 'self' and 'self' in self.env and sig['mut'] == 'self' and sig['ret'] == 'self'):
+                keys = [k for k in ORDER if py_name(k) == vn.func.attr and SIGS[k]['kind'] == 'method']
+                pos, kws, star = self.split_args(vn)
+                if keys:
+                    key = self.pick_specialisation(keys, pos, kws, star)
+                    if SIGS[key]['mut'] == 'self' and SIGS[key]['ret'] == 'self':
+                        # `return self.m(..)` with m mutating self and returning it
+                        if any(al[0] == 'objref' and al[1] == 'self' for al in self.alias.values()) \
+                                and py_name(key) not in KEEPS_BASES_OBJECTS:
+                            raise Untranslatable('self.%s(..) may re-bind basis objects that are referred to' % vn.func.attr)
+                        call, _ = self.fn_call(ind, key, pos, kws, star)
+                        self.emit(ind, 'let self_ ← %s' % call)
+                        self.emit(ind, 'pure self_')
+                        return
             v, tv = self.ex(ind, value_node)
             parts.append(self.coerce(v, tv, sig['ret'], 'return value of %s' % self.key))
         self.emit(ind, 'pure %s' % ('(%s)' % ', '.join(parts) if len(parts) != 1 else parts[0]) if parts else 'pure ()')
@@ -1350,10 +2052,13 @@ class OFn(B.Fn):
         t = s.test
         if not (isinstance(t, ast.Compare) and len(t.ops) == 1 and isinstance(t.ops[0], (ast.Gt, ast.Lt))):
             raise Untranslatable('while condition %s' % ast.unparse(t))
+        ntmp0 = self.ntmp
         (a, ta), pre1 = self.capture(lambda: self.ex(ind, t.left))
         (b, tb), pre2 = self.capture(lambda: self.ex(ind, t.comparators[0]))
-        if pre1 or pre2 or ta != 'int' or tb != 'int':
-            raise Untranslatable('while condition that is not a comparison of two plain ints')
+        if ta != 'int' or tb != 'int':
+            raise Untranslatable('while condition that is not a comparison of two ints')
+        if pre1 or pre2:
+            return self.while_monadic(ind, s, t, pre1 + pre2, a, b, ntmp0)
         fuel = '(%s - %s).toNat' % ((a, b) if isinstance(t.ops[0], ast.Gt) else (b, a))
         carried = [x for x in self.assigned(s.body) if x in self.env]
         saved = dict(self.env)
@@ -1377,6 +2082,39 @@ class OFn(B.Fn):
             self.unpack(ind, stv, carried)
         return False
 
+    def while_monadic(self, ind, s, t, pre, a, b, ntmp0):
+        """`while` whose condition reads attributes of objects (may raise): the operands are evaluated once
+        before the loop (for the fuel = their distance) and again, on the current state, before every pass."""
+        self.lines += pre                      # first evaluation, before the loop
+        fuel = '(%s - %s).toNat' % ((a, b) if isinstance(t.ops[0], ast.Gt) else (b, a))
+        carried = [x for x in self.assigned(s.body) if x in self.env]
+        saved = dict(self.env)
+        stv = 'st%d' % (self.ntmp + 1)
+        self.ntmp += 1
+        pat = self.tuple_text(carried)
+        sym = '>' if isinstance(t.ops[0], ast.Gt) else '<'
+        self.emit(ind, 'let %s ← whileFuelM %s %s' % (stv, fuel, pat))
+        self.emit(ind + 2, '(fun %s => do' % stv)
+        if carried:
+            self.unpack(ind + 3, stv, carried)
+        (a2, _), p1 = self.capture(lambda: self.ex(ind + 3, t.left))
+        (b2, _), p2 = self.capture(lambda: self.ex(ind + 3, t.comparators[0]))
+        self.lines += p1 + p2
+        self.emit(ind + 3, 'pure (decide (%s %s %s)))' % (a2, sym, b2))
+        self.emit(ind + 2, '(fun %s => do' % stv)
+        if carried:
+            self.unpack(ind + 3, stv, carried)
+        self.block(ind + 3, s.body, ('join', carried))
+        self.lines[-1] += ')'
+        after = self.env
+        self.env = saved
+        for x in carried:
+            if after.get(x) != saved[x]:
+                raise Untranslatable('loop changes the type of %s' % x)
+        if carried:
+            self.unpack(ind, stv, carried)
+        return False
+
     def pattern(self, vs):
         if not vs:
             return '_'
@@ -1386,8 +2124,14 @@ class OFn(B.Fn):
     def run(self):
         node, sig = self.node, self.sig
         a = node.args
-        if a.kwonlyargs or a.posonlyargs:
+        if a.posonlyargs:
             raise Untranslatable('%s: parameter kinds' % node.name)
+        kwonly = sig.get('kwonly') or []
+        if [x.arg for x in a.kwonlyargs] != [p for p, _, _ in kwonly]:
+            raise Untranslatable('%s: keyword-only parameters %r' % (node.name, [x.arg for x in a.kwonlyargs]))
+        for (p, ty, dflt), d in zip(kwonly, a.kw_defaults):
+            if not (isinstance(d, ast.Constant) and d.value is dflt):
+                raise Untranslatable('%s: default of the keyword-only parameter %s' % (node.name, p))
         got = [x.arg for x in a.args]
         want = (['self'] if self.is_method else []) + [p for p, _, _ in sig['params']]
         if got != want:
@@ -1407,6 +2151,8 @@ class OFn(B.Fn):
                 have = d.value
             elif isinstance(d, ast.UnaryOp) and isinstance(d.op, ast.USub) and isinstance(d.operand, ast.Constant):
                 have = -d.operand.value
+            elif isinstance(d, ast.Tuple) and all(isinstance(x, ast.Constant) for x in d.elts):
+                have = tuple(x.value for x in d.elts)
             else:
                 raise Untranslatable('%s: default of %s' % (node.name, p))
             if (have is not dflt and have != dflt) or (type(have) is not type(dflt)):
@@ -1416,8 +2162,13 @@ class OFn(B.Fn):
             binders.append('(self_ : PyObj K)')
             self.env['self'] = 'self'
             binders.append('(tol : K)')
+        if sig.get('fnparams'):
+            binders.append('(%s : K → K)' % ' '.join(sig['fnparams']))
         for p, ty, _ in sig['params']:
             self.env[p] = ty
+            if ty == 'nparr':
+                self.env[p] = 'flist'
+                self.env['#arr:' + p] = 'nparr'
             if ty == 'none':
                 continue
             binders.append('(%s : %s)' % (lname(p), LEAN_TYPE[ty]))
@@ -1425,12 +2176,33 @@ class OFn(B.Fn):
             p, ty = sig['vararg']
             self.env[p] = ty
             binders.append('(%s : %s)' % (lname(p), LEAN_TYPE[ty]))
+        for p, ty, _ in kwonly:
+            self.env[p] = ty
+            if ty != 'none':
+                binders.append('(%s : %s)' % (lname(p), LEAN_TYPE[ty]))
         for k, ty in (sig.get('kwargs') or {}).items():
             if ty is not None:
                 binders.append('(kw_%s : %s)' % (k, LEAN_TYPE[ty]))
-        self.block(1, list(node.body), ('end',))
+        # lists of slices that are indexed into (`ix[d] = i`) hold general index entries
+        for n in ast.walk(node):
+            if isinstance(n, ast.Assign):
+                for t in n.targets:
+                    if isinstance(t, ast.Subscript) and isinstance(t.value, ast.Name):
+                        self.idx_vars.add(t.value.id)
+        self.idx_vars = {v for v in self.idx_vars if any(
+            isinstance(n, ast.Assign) and len(n.targets) == 1 and isinstance(n.targets[0], ast.Name)
+            and n.targets[0].id == v and 'slice(' in ast.unparse(n.value) for n in ast.walk(node))}
+        fuel = sig.get('fuel')
+        self.block(2 if fuel else 1, list(node.body), ('end',))
         body = '\n'.join(self.lines)
         floor = ' [FloorRing K]' if self.uses_floor else ''
+        if fuel:
+            args = ' '.join(re.findall(r'\((\S+) :', ' '.join(binders)))
+            head = 'def %s_fuel%s (fuel : ℕ) %s : PyM (%s) :=\n  match fuel with\n  | 0 => throw .other\n  | fuel + 1 => do' % (
+                lean_name(self.key), floor, ' '.join(binders), ret_lean_type(sig))
+            tail = '\n\ndef %s%s %s : PyM (%s) :=\n  %s_fuel (%s) %s' % (
+                lean_name(self.key), floor, ' '.join(binders), ret_lean_type(sig), lean_name(self.key), fuel, args)
+            return re.sub(r'  +:', ' :', head) + '\n' + body + tail
         head = 'def %s%s %s : PyM (%s) := do' % (lean_name(self.key), floor, ' '.join(binders), ret_lean_type(sig))
         return re.sub(r'  +:', ' :', head) + '\n' + body
 
@@ -1445,8 +2217,10 @@ HEADER = '''import Splipy.Lemmas.PyObjectLib
 Calls of `BSplineBasis` methods are NOT translated here: they are the hand model's `Basis.*` functions
 (`Basis.start/stop/numFunctions/reverse/reparam/insertKnot`, `snap`, `Basis.evaluate` via `basisEvaluate`);
 their equality with `basis.py` / `basis_eval.pyx` is established by `Lemmas/PyBasisEq.lean` (t1) and
-`Lemmas/PyxEq.lean` (t2).  `utils.is_singleton / ensure_listlike / ensure_flatlist` are primitives of
-`Lemmas/PyObjectLib.lean`. -/
+`Lemmas/PyxEq.lean` (t2).  `utils.is_singleton / ensure_listlike / ensure_flatlist` (and, for `section` /
+`corners`, `utils.check_section` / `utils.sections`) are primitives of `Lemmas/PyObjectLib.lean`;
+`utils.rotation_matrix` is translated; `np.linalg.inv` is `Mat.invChecked`; `sqrt_ cos_ sin_` are abstract
+inputs of `mirror` / `rotate` / `rotation_matrix`; `split` is a fuel-indexed recursion. -/
 
 set_option linter.unusedVariables false
 
@@ -1491,8 +2265,22 @@ PINNED_SRC = {
                         '    except IndexError:\n        return []\n'),
     'ensure_flatlist': 'def ensure_flatlist(x):\n    if isinstance(x[0], Sized):\n        return x[0]\n    return x\n',
 }
+# pinned per method (`pins` in the interface table): a difference fails only the methods that use the primitive
+PINNED_SRC_OPT = {
+    'check_section': ("def check_section(*args, **kwargs):\n    pardim = kwargs['pardim']\n    args = list(args)\n"
+                      "    while len(args) < pardim:\n        args.append(None)\n"
+                      "    for k in set(kwargs.keys()) & set('uvw'):\n        index = 'uvw'.index(k)\n"
+                      "        args[index] = kwargs[k]\n    return args\n"),
+    'sections': ("def sections(src_dim, tgt_dim):\n    nfixed = src_dim - tgt_dim\n"
+                 "    for fixed in combinations(range(src_dim), r=nfixed):\n"
+                 "        for indices in product([0, -1], repeat=nfixed):\n            args = [None] * src_dim\n"
+                 "            for f, i in zip(fixed, indices[::-1]):\n                args[f] = i\n            yield args\n"),
+}
 for _k, _s in PINNED_SRC.items():
     PINNED_DIGEST[_k] = fn_digest(ast.parse(_s).body[0])
+for _k, _s in PINNED_SRC_OPT.items():
+    PINNED_DIGEST[_k] = fn_digest(ast.parse(_s).body[0])
+PIN_ERR = {}
 
 
 def check_module_env(tree, cls, utree):
@@ -1568,7 +2356,7 @@ def check_module_env(tree, cls, utree):
         elif isinstance(n, (ast.Assign, ast.AugAssign, ast.AnnAssign)):
             tg = n.targets if isinstance(n, ast.Assign) else [n.target]
             for t in tg:
-                if isinstance(t, ast.Name) and t.id in PINNED_UTILS + ('check_direction',):
+                if isinstance(t, ast.Name) and t.id in PINNED_UTILS + ('check_direction', 'rotation_matrix', 'check_section', 'sections'):
                     raise Untranslatable('utils: module-level assignment rebinds %s' % t.id)
     if useen.get('Sized', (None, None))[1] != 'Sized' or useen['Sized'][0] not in ('collections.abc', 'collections'):
         raise Untranslatable('utils: Sized is not collections.abc.Sized')
@@ -1579,6 +2367,15 @@ def check_module_env(tree, cls, utree):
             raise Untranslatable('utils.%s differs from the pinned source its Lean primitive models' % k)
     if 'check_direction' not in ufuncs or ufuncs['check_direction'].decorator_list:
         raise Untranslatable('utils.check_direction not found')
+    PIN_ERR.clear()
+    for k in PINNED_SRC_OPT:
+        if k not in ufuncs:
+            PIN_ERR[k] = 'utils.%s not found' % k
+        elif ufuncs[k].decorator_list or fn_digest(ufuncs[k]) != PINNED_DIGEST[k]:
+            PIN_ERR[k] = 'utils.%s differs from the pinned source its Lean primitive models' % k
+    for nm in ('combinations', 'product'):
+        if useen.get(nm) != ('itertools', nm):
+            PIN_ERR['sections'] = 'utils: %s is not itertools.%s' % (nm, nm)
     return funcs, ufuncs
 
 
@@ -1617,6 +2414,9 @@ def translate(src, utils_src, only=None, stub=()):
             failed.add(key)
             continue
         try:
+            for pin in sig.get('pins') or ():
+                if pin in PIN_ERR:
+                    raise Untranslatable(PIN_ERR[pin])
             fn = OFn(key, node, floor_users)
             text = fn.run()
             bad = sorted(fn.calls & failed)
